@@ -119,6 +119,7 @@ def c20(tier):
     ts.ts7(P, C)
     ts.ts8(P, C)
     ts.ts9(P, C)
+    ts.ts4d(P, C)
     ts.ts3b(P, C)
     nl.nl1(P, C)
     nl.nl2(P, C)
